@@ -45,6 +45,8 @@ ReplaceAll(s, a, b) ==             \* a non-empty
   IF i = 0 THEN s
   ELSE SubSeq(s, 1, i - 1) \o b \o ReplaceAll(SubSeq(s, i + Len(a), Len(s)), a, b)
 
+AsciiTable == " !\"#$%&'()*+,-./0123456789:;<=>?@ABCDEFGHIJKLMNOPQRSTUVWXYZ[\\]^_`abcdefghijklmnopqrstuvwxyz{|}~"
+
 Digits == <<"0", "1", "2", "3", "4", "5", "6", "7", "8", "9">>
 IsDigit(c) == \E i \in 1..10 : Digits[i] = c
 DigitVal(c) == (CHOOSE i \in 1..10 : Digits[i] = c) - 1
@@ -87,7 +89,62 @@ WildMatch(p, s) ==
        ELSE IF c = "?" THEN Len(s) > 0 /\ WildMatch(DropPrefix(p, 1), DropPrefix(s, 1))
        ELSE Len(s) > 0 /\ Ch(s, 1) = c /\ WildMatch(DropPrefix(p, 1), DropPrefix(s, 1))
 
-HasWild(p) == Contains(p, "*") \/ Contains(p, "?")
+(* Full-path glob matching in the syntax of gobwas/glob with "/" as separator (what fileglob compiles):  *)
+(*   *      any run of non-separator characters          **     any run of characters                     *)
+(*   ?      one non-separator character                  [abc] [a-z] [!x]  one non-separator character    *)
+(*   {a,b}  alternatives (patterns)                      \\x    the character x literally                    *)
+RECURSIVE FindClose(_, _, _, _)
+FindClose(p, i, open, close) ==           \* index of the matching close character from position i (depth 0), 0 if none
+  IF i > Len(p) THEN 0
+  ELSE IF Ch(p, i) = "\\" THEN FindClose(p, i + 2, open, close)
+  ELSE IF Ch(p, i) = close THEN i
+  ELSE FindClose(p, i + 1, open, close)
+
+RECURSIVE SplitAlt(_, _, _, _)
+SplitAlt(body, i, cur, acc) ==            \* split the inside of {...} on top-level commas
+  IF i > Len(body) THEN Append(acc, cur)
+  ELSE IF Ch(body, i) = "," THEN SplitAlt(body, i + 1, "", Append(acc, cur))
+  ELSE SplitAlt(body, i + 1, cur \o Ch(body, i), acc)
+
+Ord(c) == IndexOf(AsciiTable, c)
+RECURSIVE ClassHasR(_, _, _)
+ClassHasR(body, i, c) ==                   \* body: the inside of [...] without a leading '!': single characters and x-y ranges
+  IF i > Len(body) THEN FALSE
+  ELSE IF i + 2 <= Len(body) /\ Ch(body, i + 1) = "-"
+       THEN (Ord(Ch(body, i)) <= Ord(c) /\ Ord(c) <= Ord(Ch(body, i + 2))) \/ ClassHasR(body, i + 3, c)
+       ELSE Ch(body, i) = c \/ ClassHasR(body, i + 1, c)
+ClassHas(body, c) == ClassHasR(body, 1, c)
+
+RECURSIVE GlobMatch(_, _)
+GlobMatch(p, s) ==
+  IF Len(p) = 0 THEN Len(s) = 0
+  ELSE LET c == Ch(p, 1) IN
+       IF c = "*" THEN
+          (IF Len(p) >= 2 /\ Ch(p, 2) = "*"
+           THEN \/ GlobMatch(DropPrefix(p, 2), s)
+                \/ (Len(s) > 0 /\ GlobMatch(p, DropPrefix(s, 1)))
+           ELSE \/ GlobMatch(DropPrefix(p, 1), s)
+                \/ (Len(s) > 0 /\ Ch(s, 1) # "/" /\ GlobMatch(p, DropPrefix(s, 1))))
+       ELSE IF c = "?" THEN Len(s) > 0 /\ Ch(s, 1) # "/" /\ GlobMatch(DropPrefix(p, 1), DropPrefix(s, 1))
+       ELSE IF c = "[" THEN
+          (LET close == FindClose(p, 2, "[", "]") IN
+           IF close = 0 THEN Len(s) > 0 /\ Ch(s, 1) = "[" /\ GlobMatch(DropPrefix(p, 1), DropPrefix(s, 1))
+           ELSE LET body0 == SubSeq(p, 2, close - 1)
+                    neg == Len(body0) > 0 /\ Ch(body0, 1) = "!"
+                    body == IF neg THEN DropPrefix(body0, 1) ELSE body0
+                IN Len(s) > 0 /\ Ch(s, 1) # "/" /\ (ClassHas(body, Ch(s, 1)) # neg)
+                   /\ GlobMatch(DropPrefix(p, close), DropPrefix(s, 1)))
+       ELSE IF c = "{" THEN
+          (LET close == FindClose(p, 2, "{", "}") IN
+           IF close = 0 THEN Len(s) > 0 /\ Ch(s, 1) = "{" /\ GlobMatch(DropPrefix(p, 1), DropPrefix(s, 1))
+           ELSE LET alts == SplitAlt(SubSeq(p, 2, close - 1), 1, "", <<>>)
+                    rest == DropPrefix(p, close)
+                IN \E i \in 1..Len(alts) : GlobMatch(alts[i] \o rest, s))
+       ELSE IF c = "\\" /\ Len(p) >= 2 THEN Len(s) > 0 /\ Ch(s, 1) = Ch(p, 2) /\ GlobMatch(DropPrefix(p, 2), DropPrefix(s, 1))
+       ELSE Len(s) > 0 /\ Ch(s, 1) = c /\ GlobMatch(DropPrefix(p, 1), DropPrefix(s, 1))
+
+\* (an escaped character is static text: a pattern made of text and escapes only has no matcher)
+HasWild(p) == \E m \in {"*", "?", "[", "{"} : Contains(p, m)
 
 \* sequence helpers
 SeqToSet(q) == { q[i] : i \in 1..Len(q) }
